@@ -746,6 +746,13 @@ def run_two_keys(params, known):
                 samples=[], verdicts={}, report_keys=['verdicts'])
 
 
+def run_secured_fragments(params, known):
+    from .c06 import run_secured_fragments as run
+    res = run(params, known)
+    res.update(verdicts={}, report_keys=['verdicts'])
+    return res
+
+
 def run_key_history(params, known):
     '''One long-lived receiver; before each of three receptions of bundles protected with COSE_Mac0 its key under
     the key identifier is the right one, another one, or absent (27 histories).  Each reception is judged on its
@@ -925,6 +932,8 @@ def scenarios(tier):
     pems = make_pems()
     out.append(dict(name='mac0-two-keys', kind='enum', runner='run_two_keys', params=dict(name='mac0-two-keys'), weight=1))
     out.append(dict(name='mac0-key-history', kind='enum', runner='run_key_history', params=dict(name='mac0-key-history'), weight=1))
+    # the secured bundle is cut into fragments on its way: put together first, verified then (all arrival orders)
+    out.append(dict(name='secured-then-fragmented', kind='enum', runner='run_secured_fragments', params=dict(name='secured-then-fragmented', prop=PROP), weight=2))
     out.append(dict(name='sign1-certificate-validity', kind='enum', runner='run_cert_validity', params=dict(name='sign1-certificate-validity', pems=pems), weight=2))
     out.append(dict(name='sign1-key-shapes', kind='enum', runner='run_key_shapes', params=dict(name='sign1-key-shapes', pems=pems), weight=2))
     out.append(dict(name='sign1-wrong-certificate', kind='enum', runner='run_wrong_cert',
